@@ -6,3 +6,4 @@ open AC.Props.C04
 #print axioms C04_roundtrip_core
 #print axioms C04_roundtrip_translate
 #print axioms C04_text_of
+#print axioms C04_naming_constants
